@@ -98,8 +98,68 @@ fn run_route(id: u64, route_no: usize, e: &str, sigma: &[u32], paths: &[String],
         _ => return,
     };
     emit("new", abs_glob(&glob, sigma, paths), out);
+    // once the value is a combinator, the remaining steps wrap it again
+    let mut combinator: Option<Any<'static>> = None;
     for step in route {
+        if let Some(current) = combinator.take() {
+            let r = guarded(|| -> Result<(Any<'static>, Value), String> {
+                let next = match step.as_str() {
+                    // the combinator passed through a combinator as a compiled value
+                    "any_again" => wax::any([current]).map_err(|e| e.to_string())?,
+                    // a combinator of nothing in front of it (a new value: Lifecycle!Reset)
+                    "any_mix_empty" => {
+                        wax::any([wax::any(Vec::<&str>::new()).map_err(|e| e.to_string())?, current]).map_err(|e| e.to_string())?
+                    },
+                    other => return Err(format!("unknown step {} on a combinator", other)),
+                };
+                let a = abs_any(&next, sigma, paths);
+                Ok((next, a))
+            });
+            match r {
+                Ok(Ok((next, abs))) => {
+                    emit(step, abs, out);
+                    combinator = Some(next);
+                    continue;
+                },
+                Ok(Err(error)) => {
+                    emit(step, json!({"kind": "error", "error": error}), out);
+                    return;
+                },
+                Err(site) => {
+                    emit(step, json!({"kind": "panic", "error": site}), out);
+                    return;
+                },
+            }
+        }
         let text = glob.to_string();
+        if step == "any_compiled_keep" || step == "any_nested_keep" {
+            // as any_compiled / any_nested, but the combinator is kept for further steps
+            let r = guarded(|| -> Result<(Any<'static>, Value), String> {
+                let a = if step == "any_compiled_keep" {
+                    wax::any([glob.clone()]).map_err(|e| e.to_string())?
+                }
+                else {
+                    wax::any([wax::any([glob.clone()])]).map_err(|e| e.to_string())?
+                };
+                let abs = abs_any(&a, sigma, paths);
+                Ok((a, abs))
+            });
+            match r {
+                Ok(Ok((a, abs))) => {
+                    emit(step, abs, out);
+                    combinator = Some(a);
+                    continue;
+                },
+                Ok(Err(error)) => {
+                    emit(step, json!({"kind": "error", "error": error}), out);
+                    return;
+                },
+                Err(site) => {
+                    emit(step, json!({"kind": "panic", "error": site}), out);
+                    return;
+                },
+            }
+        }
         let r = guarded(|| -> Result<(Option<Glob<'static>>, Value), String> {
             match step.as_str() {
                 "clone" => {
